@@ -35,7 +35,7 @@ def truth(v):
         return v[1] != 0
     if v[0] == "null":
         return False
-    if v[0] in ("ptr", "fn"):
+    if v[0] in ("ptr", "fn", "str"):
         return True
     return None
 
@@ -1034,7 +1034,7 @@ class Explorer:
     def _ptr_eq(a, b):
         if a[0] == "null" and b[0] == "null":
             return True
-        if (a[0] == "null" and b[0] in ("ptr", "fn")) or (b[0] == "null" and a[0] in ("ptr", "fn")):
+        if (a[0] == "null" and b[0] in ("ptr", "fn", "str")) or (b[0] == "null" and a[0] in ("ptr", "fn", "str")):
             return False
         if a[0] == "ptr" and b[0] == "ptr":
             if a[1] == b[1] and a[2] == b[2]:
